@@ -33,7 +33,8 @@ PROPS = {
                       {'module': 'MC_Content', 'cfg': 'MC_Content_small', 'tier': 'quick', 'actions': ['Publish', 'Transmit', 'Heartbeat']},
                       {'module': 'MC_Content', 'cfg': 'MC_Content', 'tier': 'thorough'},
                       {'module': 'MC_Conn', 'cfg': 'MC_Conn', 'tier': 'quick'}, {'module': 'MC_Conn', 'cfg': 'MC_Conn_deep', 'tier': 'thorough'},
-                      {'module': 'MC_Conn', 'cfg': 'MC_Conn_reach', 'tier': 'both', 'expect_violation': 'NoCompleteConversation'}),
+                      {'module': 'MC_Conn', 'cfg': 'MC_Conn_reach', 'tier': 'both', 'expect_violation': 'NoCompleteConversation'},
+                      {'module': 'MC_Conn', 'cfg': 'MC_Conn_live', 'tier': 'both', 'workers': 8}),
             'rule': 'one event per body / heartbeat / protocol-header round trip; distinct = distinct (payload, channel)'},
     'C04': {'gen': s2c.combine(s2c.gen_values, s2c.gen_frames),
             'shards': lambda t: 16 if t == 'quick' else 48,
